@@ -240,16 +240,16 @@ theorem composition (base cwd : PPath) (hc : C02.AbsNormal cwd) (n : Str) (hn : 
     as `path / n` with the server's facts — for every valid name. -/
 theorem composition_mlsd (facts : List (Str × Str)) (hne : facts ≠ []) (hf : FactsOK facts)
     (hnd : (facts.map (fun kv => lower kv.1)).Nodup)
-    (hty : ∃ v, dictGet (facts.map (fun kv => (lower kv.1, kv.2))) "type".toList = .ok v)
     (path : PPath) (n : Str) (hn : ValidName n) :
     listStep (fun s => .ok (parseMlsxLine s)) path (buildMlsxString facts n ++ END_OF_LINE) =
       .ok (some (⟨path.root, path.parts ++ [n]⟩, facts.map (fun kv => (lower kv.1, kv.2)))) := by
-  obtain ⟨v, hv⟩ := hty
-  unfold listStep
-  simp only [mlsx_name_roundtrip facts hne hf hnd n hn, bind, Except.bind, pure, Except.pure]
+  have hfact : Generated.listTypeLookupRaises = false := by decide
   have hstr : PPath.str ⟨0, [n]⟩ = n := by simp [PPath.str, rootStr, joinWith]
-  rw [hstr, if_neg (by intro h; rcases h with h | h; exact hn.2.1 h; exact hn.2.2.1 h), hv]
-  simp [PPath.join]
+  unfold listStep
+  rw [hfact]
+  refine (listStepWith_false_entry _ path _ ⟨0, [n]⟩ _ (by rw [mlsx_name_roundtrip facts hne hf hnd n hn]) ?_).trans ?_
+  · rw [hstr]; intro h; rcases h with h | h; exact hn.2.1 h; exact hn.2.2.1 h
+  · simp [PPath.join]
 
 /-- **composition (server → client), LIST fallback.**  For a name without leading whitespace the entry is
     yielded as `path / n` with the server's type and size (partial: see `list_leading_space_lost`). -/
